@@ -125,6 +125,14 @@ func init() {
 			i.callMethod(w, "WriteHeader", 404)
 			return nil
 		},
+		vrt + "YieldOnFS": func(fr *frame, a []value) value {
+			fr.i.world.yieldOnFS = a[1].(bool)
+			return nil
+		},
+		vrt + "YieldOnLock": func(fr *frame, a []value) value {
+			fr.i.world.yieldOnLock = a[1].(bool)
+			return nil
+		},
 		vrt + "YieldOnRead": func(fr *frame, a []value) value {
 			fr.i.world.yieldOnRead = a[1].(bool)
 			return nil
